@@ -95,6 +95,21 @@ func corpusSource() []byte {
 		}
 		sb.WriteString("}\n\n")
 	}
+	// the shipped problem matcher's pattern (C16 round trip)
+	pat := ""
+	if b, err := os.ReadFile(filepath.Join(repoDir, ".github", "actionlint-matcher.json")); err == nil {
+		var m struct {
+			ProblemMatcher []struct {
+				Pattern []struct {
+					Regexp string `json:"regexp"`
+				} `json:"pattern"`
+			} `json:"problemMatcher"`
+		}
+		if json.Unmarshal(b, &m) == nil && len(m.ProblemMatcher) > 0 && len(m.ProblemMatcher[0].Pattern) > 0 {
+			pat = m.ProblemMatcher[0].Pattern[0].Regexp
+		}
+	}
+	fmt.Fprintf(&sb, "var verifMatcherRegexp = %s\n\n", strconv.Quote(pat))
 	if withCorpus {
 		c := buildCorpus()
 		lst("verifCorpusFiles", c.Files)
